@@ -187,6 +187,17 @@ def check_term(t, r=None, as_predicate=True):
         results.append(tuple(absyn.canon(p) for p in plain))
         if r is not None:
             r.outcomes[f'parts={min(len(plain), 6)}'] += 1
+        # E4, history of length 2: the returned list belongs to the caller (work-list loops pop it empty,
+        # others append to it); a second call on the same object must give the same answer again
+        n_parts = len(parts)
+        parts.clear() if n_parts % 2 else parts.append(obj)
+        try:
+            again = split_and(obj)
+            again_l = tuple(absyn.canon(absyn.strip_types(absyn.lift(p, typed=True))) for p in again)
+        except Exception as e:  # noqa: BLE001
+            again, again_l = None, ('raised ' + type(e).__name__,)
+        if again is parts or again_l != results[-1]:
+            problems.append(('a second call after the caller modified the first result gives a different answer', f'split_and({text}) twice: {n_parts} parts, then {len(again_l)}'))
     if len(results) >= 2 and any(x != results[0] for x in results[1:]):
         problems.append(('predicate and condition split differently', f'split_and on {{ {text} }} vs {text}'))
     return problems
@@ -373,7 +384,7 @@ def replay(w):
 def describe(tier):
     b = bounds(tier)
     return {
-        'rule': f"every boolean term over atoms p q r (x > 0) (y = 1) True False with not/and/or/implies/iff and forall/exists @i over xs, {{0, 1}}, [0 to 1] (bodies use (@i > 0), nested (@i < @j)) with <= {b['nodes_with_quantifiers']} nodes, and the quantifier-free part up to {b['nodes_propositional']} nodes; x every valuation (complete truth tables; numbers -1 0 1; arrays [] [0] [0,1]). Every term with <= 5 nodes is also checked under chains of 2, 3 and 4 negations. Each term is split both as an expression and as a predicate; terms with <= 4 nodes also as a deep copy and as a rebuild through the constructors with freshly made (equal, not identical) operator definitions; plus three API-built conjunctions of conjuncts that differ but print alike. A state = one term; a transition = one real split_and call.",
+        'rule': f"every boolean term over atoms p q r (x > 0) (y = 1) True False with not/and/or/implies/iff and forall/exists @i over xs, {{0, 1}}, [0 to 1] (bodies use (@i > 0), nested (@i < @j)) with <= {b['nodes_with_quantifiers']} nodes, and the quantifier-free part up to {b['nodes_propositional']} nodes; x every valuation (complete truth tables; numbers -1 0 1; arrays [] [0] [0,1]). Every term with <= 5 nodes is also checked under chains of 2, 3 and 4 negations. Each term is split both as an expression and as a predicate; terms with <= 4 nodes also as a deep copy and as a rebuild through the constructors with freshly made (equal, not identical) operator definitions; plus three API-built conjunctions of conjuncts that differ but print alike. After every successful call the returned list is modified in place (emptied or appended to) and split_and is called again on the same object: same answer, fresh list. A state = one term; a transition = one real split_and call.",
         'bounds': b,
         'exhaustive': True,
         'assumptions': ['reference evaluator; strict connectives; ValueError accepted only if the input is false on the whole grid and contains a literal False'],
